@@ -96,12 +96,12 @@ Proof.
 Qed.
 
 Lemma run_repl_frame : forall r out0 mc cs ig s',
-  run_repl r out0 mc cs ig = Next s' ->
-  run_repl (r ++ sfx) (out0 ++ outF) mc (cs ++ csF) ig = Next (frame sfx outF csF s').
+  run_repl q r out0 mc cs ig = Next s' ->
+  run_repl q (r ++ sfx) (out0 ++ outF) mc (cs ++ csF) ig = Next (frame sfx outF csF s').
 Proof.
   unfold run_repl; intros r out0 mc cs ig s' H.
   destruct (proc_repl _ _ _ _ _ _) as [args buf|i prev rs args buf].
-  - destruct (do_concat buf); [|discriminate]. inversion H; subst. unfold frame; cbn.
+  - destruct (do_concat _ buf); [|discriminate]. inversion H; subst. unfold frame; cbn.
     rewrite <- app_assoc. reflexivity.
   - inversion H; subst. unfold frame; cbn. rewrite <- app_assoc. reflexivity.
 Qed.
@@ -132,7 +132,7 @@ Proof.
            rewrite (find_args_frame _ _ _ _ _ _ _ _ _ _ _ _ _ _ _ F).
            apply run_repl_frame; assumption.
         -- inversion H; subst. unfold frame; cbn. destruct ws1; reflexivity.
-      * destruct (do_concat (add_tokens [] (m_body m))); [|discriminate].
+      * destruct (do_concat _ (add_tokens [] (m_body m))); [|discriminate].
         inversion H; subst. unfold frame; cbn. rewrite <- app_assoc. reflexivity.
   - inversion H; subst; reflexivity.
   - inversion H; subst; reflexivity.
@@ -201,8 +201,8 @@ Theorem arg_expanded_in_isolation : forall q d fuel arg ig sF rest out0 mc cs nl
     steps q d (S n) (mkst (TBoa :: arg ++ TEoa :: rest) out0 (mc :: cs) ig nl0)
     = Some (mkst (TEoa :: rest) (out sF ++ TBoa :: out0) (mc :: cs) (ign sF) (nl sF))
     /\ step q d (mkst (TEoa :: rest) (out sF ++ TBoa :: out0) (mc :: cs) (ign sF) (nl sF))
-       = run_repl rest out0 (mkmc (mc_name mc) (mc_params mc) (mc_prev mc) (mc_rest mc) (mc_args mc)
-                                  (add_tokens (mc_buf mc) (rev (out sF)))) cs (ign sF).
+       = run_repl q rest out0 (mkmc (mc_name mc) (mc_params mc) (mc_prev mc) (mc_rest mc) (mc_args mc)
+                                    (add_tokens (mc_buf mc) (rev (out sF)))) cs (ign sF).
 Proof.
   intros q d fuel arg ig sF rest out0 mc cs nl0 H Hc Hb.
   destruct (frame_run_end q d rest (TBoa :: out0) (mc :: cs) _ _ _ H) as [Hi [n [_ Hs]]].
@@ -217,20 +217,20 @@ Proof.
 Qed.
 
 (* (1): which parameters are expanded first.  One unfolding of the loop of process_replacement at a parameter. *)
-Lemma proc_repl_param : forall ps prev rest' shp args buf s i,
+Lemma proc_repl_param : forall old ps prev rest' shp args buf s i,
   find_param ps s = Some i ->
-  proc_repl ps prev (TIdent false s :: rest') shp args buf =
+  proc_repl old ps prev (TIdent false s :: rest') shp args buf =
   match shp with
   | Some p =>                                                   (* # parameter: the spelling of the argument *)
-      proc_repl ps (TIdent false s :: prev) rest' None (set_nth i (strip_ws1 (nth i args [])) args)
-                (add_token (firstn p buf) (stringify_toks (strip_ws1 (nth i args []))))
+      proc_repl old ps (TIdent false s :: prev) rest' None (set_nth i (strip_ws old (nth i args [])) args)
+                (add_token (firstn p buf) (stringify_toks old (strip_ws old (nth i args []))))
   | None =>
       if paste_operand prev rest' then                          (* operand of ##: the argument as it is *)
-        if empty_arg (nth i args []) then proc_repl ps (TIdent false s :: prev) rest' None args (add_token buf TPlm)
-        else proc_repl ps (TIdent false s :: prev) rest' None args (add_tokens buf (nth i args []))
+        if empty_arg (nth i args []) then proc_repl old ps (TIdent false s :: prev) rest' None args (add_token buf TPlm)
+        else proc_repl old ps (TIdent false s :: prev) rest' None args (add_tokens buf (nth i args []))
       else PrArg i (TIdent false s :: prev) rest' args buf      (* otherwise: expand the argument first *)
   end.
-Proof. intros ps prev rest' shp args buf s i H. cbn [proc_repl]. rewrite H. reflexivity. Qed.
+Proof. intros old ps prev rest' shp args buf s i H. cbn [proc_repl]. rewrite H. reflexivity. Qed.
 
 (* ====================================================================================== *)
 (* Part 2: the painting discipline -- stack, markers and ignore flags stay in step          *)
@@ -313,6 +313,14 @@ Proof.
   apply clean_rev in H1. rewrite E in H1. apply clean_cons in H1 as [_ H1]. apply clean_rev; assumption.
 Qed.
 
+Lemma drop_ws_clean : forall l, clean l -> clean (drop_ws l).
+Proof. induction l as [|t l IH]; cbn; intros H; [exact H|]. destruct (is_ws t); [apply IH; apply clean_cons in H; tauto|exact H]. Qed.
+Lemma strip_ws_clean : forall old l, clean l -> clean (strip_ws old l).
+Proof.
+  intros [|] l H; unfold strip_ws; [apply strip_ws1_clean; exact H|].
+  apply clean_rev, drop_ws_clean, clean_rev, drop_ws_clean; exact H.
+Qed.
+
 Definition cleans (a : list (list tok)) : Prop := Forall clean a.
 Lemma nth_cleans : forall a i, cleans a -> clean (nth i a []).
 Proof. induction a as [|x a IH]; intros [|i] H; cbn; try reflexivity; inversion H; subst; auto. Qed.
@@ -331,13 +339,13 @@ Proof. intros [|w l] H; cbn; [assumption|]. destruct (is_ws w); [apply clean_con
 Lemma skip1_length : forall l, length (skip1 l) <= length l.
 Proof. intros [|w l]; cbn; [lia|]. destruct (is_ws w); cbn; lia. Qed.
 
-Lemma dc_clean : forall n todo done l, length todo <= n -> clean todo -> clean done -> dc todo done = Some l -> clean l.
+Lemma dc_clean : forall old n todo done l, length todo <= n -> clean todo -> clean done -> dc old todo done = Some l -> clean l.
 Proof.
-  induction n as [|n IH]; intros todo done l Hn Ht Hd H.
+  intros old. induction n as [|n IH]; intros todo done l Hn Ht Hd H.
   - destruct todo; [|cbn in Hn; lia]. cbn in H; inversion H; subst; assumption.
   - destruct todo as [|t todo]; [cbn in H; inversion H; subst; assumption|].
     cbn in Hn. apply clean_cons in Ht as [Ht1 Ht2].
-    assert (Hother : dc todo (t :: done) = Some l -> clean l).
+    assert (Hother : dc old todo (t :: done) = Some l -> clean l).
     { intros H'. eapply IH; [| |apply clean_cons; split|exact H']; try eassumption; lia. }
     destruct t; cbn [dc] in H; try (apply Hother; exact H). clear Hother.
     pose proof (skip1_clean _ Hd) as Hd1.
@@ -347,20 +355,20 @@ Proof.
     pose proof (skip1_length l2). pose proof (skip1_clean _ Hl2). pose proof (skip1_clean _ Hr).
     destruct (is_plm tk).
     + destruct (is_plm tj).
-      * eapply IH; [| | |exact H]; [lia|assumption|apply clean_cons; split; [reflexivity|assumption]].
-      * eapply IH; [| | |exact H]; [lia|assumption|apply clean_cons; split; assumption].
+      * destruct old; (eapply IH; [| | |exact H]; [lia|assumption|apply clean_cons; split; [reflexivity|assumption]]).
+      * destruct old; (eapply IH; [| | |exact H]; [lia|assumption|apply clean_cons; split; assumption]).
     + destruct (is_plm tj).
-      * eapply IH; [| | |exact H]; [cbn; lia|apply clean_cons; split; assumption|assumption].
+      * destruct old; (eapply IH; [| | |exact H]; [cbn; lia|apply clean_cons; split; assumption|assumption]).
       * destruct (token_concat tk tj) as [t'|] eqn:Ec; [|discriminate].
         eapply IH; [| | |exact H]; [lia|assumption|].
         apply clean_cons; split; [|assumption]. unfold token_concat in Ec. eapply classify_nm; eassumption.
 Qed.
 
-Lemma do_concat_clean : forall l l', clean l -> do_concat l = Some l' -> clean l'.
+Lemma do_concat_clean : forall old l l', clean l -> do_concat old l = Some l' -> clean l'.
 Proof.
-  intros l l' H E; unfold do_concat in E. destruct (dc (rev l) []) as [x|] eqn:D; [|discriminate]. inversion E; subst.
+  intros old l l' H E; unfold do_concat in E. destruct (dc old (rev l) []) as [x|] eqn:D; [|discriminate]. inversion E; subst.
   assert (Hx : clean x).
-  { apply (dc_clean (length (rev l)) (rev l) [] x); [apply le_n|apply clean_rev; exact H|reflexivity|exact D]. }
+  { apply (dc_clean old (length (rev l)) (rev l) [] x); [apply le_n|apply clean_rev; exact H|reflexivity|exact D]. }
   clear D E. induction x as [|t x IH]; [reflexivity|]. apply clean_cons in Hx as [H1 H2]. cbn.
   apply clean_cons; split; [destruct t; cbn in *; congruence|auto].
 Qed.
@@ -487,19 +495,19 @@ Inductive pr_ok : pr_result -> Prop :=
 | pr_ok_end : forall args buf, cleans args -> clean buf -> pr_ok (PrEnd args buf)
 | pr_ok_arg : forall i prev rest args buf, cleans args -> clean buf -> clean rest -> prev <> [] -> pr_ok (PrArg i prev rest args buf).
 
-Lemma proc_repl_ok : forall ps rest prev shp args buf,
-  clean rest -> cleans args -> clean buf -> pr_ok (proc_repl ps prev rest shp args buf).
+Lemma proc_repl_ok : forall old ps rest prev shp args buf,
+  clean rest -> cleans args -> clean buf -> pr_ok (proc_repl old ps prev rest shp args buf).
 Proof.
-  induction rest as [|t rest IH]; intros prev shp args buf Hr Ha Hb; cbn [proc_repl]; [constructor; assumption|].
+  intros old ps. induction rest as [|t rest IH]; intros prev shp args buf Hr Ha Hb; cbn [proc_repl]; [constructor; assumption|].
   apply clean_cons in Hr as [Ht Hr].
-  assert (Hdef : forall sh, pr_ok (proc_repl ps (t :: prev) rest sh args (add_token buf t))).
+  assert (Hdef : forall sh, pr_ok (proc_repl old ps (t :: prev) rest sh args (add_token buf t))).
   { intros sh. apply IH; [assumption|assumption|apply add_token_clean; assumption]. }
   destruct t; try apply Hdef.
   destruct painted; [apply Hdef|].
   destruct (find_param ps s) as [i|]; [|apply Hdef].
   destruct shp as [p|].
   - apply IH; [assumption| |].
-    + apply set_nth_cleans; [assumption|]. apply strip_ws1_clean, nth_cleans; assumption.
+    + apply set_nth_cleans; [assumption|]. apply strip_ws_clean, nth_cleans; assumption.
     + apply add_token_clean; [apply clean_firstn; assumption|reflexivity].
   - destruct (paste_operand prev rest).
     + destruct (empty_arg (nth i args [])).
@@ -513,16 +521,16 @@ Proof. intros mc cs H; unfold names_R; cbn; rewrite H; reflexivity. Qed.
 Lemma names_R_cons_A : forall mc cs, in_rescan mc = false -> names_R (mc :: cs) = names_R cs.
 Proof. intros mc cs H; unfold names_R; cbn; rewrite H; reflexivity. Qed.
 
-Lemma run_repl_inv : forall r out0 mc cs ig s',
+Lemma run_repl_inv : forall q r out0 mc cs ig s',
   cinv r cs ig -> mc_clean mc -> clean out0 -> ~ In (mc_name mc) ig ->
-  run_repl r out0 mc cs ig = Next s' -> inv s'.
+  run_repl q r out0 mc cs ig = Next s' -> inv s'.
 Proof.
-  intros r out0 mc cs ig s' [H1 H2 H3 H4 H5] [Hb [Ha Hr]] Ho Hn E. unfold run_repl in E.
-  pose proof (proc_repl_ok (mc_params mc) (mc_rest mc) (mc_prev mc) None (mc_args mc) (mc_buf mc) Hr Ha Hb) as Hp.
+  intros q r out0 mc cs ig s' [H1 H2 H3 H4 H5] [Hb [Ha Hr]] Ho Hn E. unfold run_repl in E.
+  pose proof (proc_repl_ok (q_plm_ws q) (mc_params mc) (mc_rest mc) (mc_prev mc) None (mc_args mc) (mc_buf mc) Hr Ha Hb) as Hp.
   destruct (proc_repl _ _ _ _ _ _) as [args buf|i prev rest args buf];
     [inversion Hp as [? ? Hca Hcb|]|inversion Hp as [|? ? ? ? ? Hca Hcb Hcr Hpn]]; subst.
-  - destruct (do_concat buf) as [l|] eqn:D; [|discriminate]. inversion E; subst. clear E.
-    pose proof (do_concat_clean _ _ Hcb D) as Hl.
+  - destruct (do_concat _ buf) as [l|] eqn:D; [|discriminate]. inversion E; subst. clear E.
+    pose proof (do_concat_clean _ _ _ Hcb D) as Hl.
     split; [|exact Ho]. cbn [inp calls ign].
     constructor.
     + rewrite markers_app, (markers_clean _ Hl). cbn. rewrite H1. reflexivity.
@@ -586,7 +594,7 @@ Proof.
                                   (Forall_nil _) eq_refl) as Hf.
         destruct (find_args q i1 cs1 ig1 _ _ _ _ _ _ _ _) as [rest cs2 ig2 a|w]; [|destruct Hf as [Hf1 Hf2]; repeat split; try assumption; lia].
         destruct Hf as [Hc2 [Hi2 Ha]].
-        destruct (run_repl rest o (mkmc s ps [] (m_body m) a []) cs2 ig2) as [|s'|w] eqn:Er.
+        destruct (run_repl q rest o (mkmc s ps [] (m_body m) a []) cs2 ig2) as [|s'|w] eqn:Er.
         -- exact I.
         -- eapply run_repl_inv; [exact Hc2| |exact Ho| |exact Er].
            ++ repeat split; cbn; try assumption; try reflexivity; try exact (Ht _ _ Ed).
@@ -599,7 +607,7 @@ Proof.
         assert (Hw : nm w = true).
         { eapply (skip_ws_nm _ _ _ _ _ _ _ _ (fun w (Hs : None = Some w) => ltac:(discriminate)) E); reflexivity. }
         apply cinv_nm_cons'; assumption.
-    + destruct (do_concat (add_tokens [] (m_body m))) as [l|] eqn:D; [|repeat split; discriminate].
+    + destruct (do_concat _ (add_tokens [] (m_body m))) as [l|] eqn:D; [|repeat split; discriminate].
       assert (Hl : clean l).
       { eapply do_concat_clean; [|exact D]. apply add_tokens_clean; [reflexivity|exact (Ht _ _ Ed)]. }
       destruct Hc as [H1 H2 H3 H4 H5]. split; [|exact Ho]. cbn [inp calls ign]. constructor.
@@ -615,7 +623,7 @@ Proof.
     destruct (split_boa_clean o [] a o0 Ho (eq_refl : clean []) Es) as [Ha Ho0].
     inversion H5 as [|? ? [Hb [Hargs Hrest]] H5']; subst.
     rewrite names_R_cons_A in H3 |- * by exact Hm.
-    destruct (run_repl r o0 _ cs (names_R cs)) as [|s'|w] eqn:Er.
+    destruct (run_repl q r o0 _ cs (names_R cs)) as [|s'|w] eqn:Er.
     + exact I.
     + eapply run_repl_inv; [| | | |exact Er].
       * constructor; [exact Hr|reflexivity|exact H3|exact (proj2 H4)|exact H5'].
@@ -680,10 +688,10 @@ Definition in_table (d : defs) (cs : list mcall) : Prop := Forall (fun mc => d (
 Lemma in_table_suffix : forall d a b, suffix a b -> in_table d b -> in_table d a.
 Proof. intros d a b [p H] Hb; subst. unfold in_table in *. apply Forall_app in Hb; tauto. Qed.
 
-Lemma run_repl_in_table : forall d r o mc cs ig s', d (mc_name mc) <> None -> in_table d cs ->
-  run_repl r o mc cs ig = Next s' -> in_table d (calls s').
+Lemma run_repl_in_table : forall q d r o mc cs ig s', d (mc_name mc) <> None -> in_table d cs ->
+  run_repl q r o mc cs ig = Next s' -> in_table d (calls s').
 Proof.
-  intros d r o mc cs ig s' Hm Hc E; unfold run_repl in E.
+  intros q d r o mc cs ig s' Hm Hc E; unfold run_repl in E.
   destruct (proc_repl _ _ _ _ _ _); [destruct (do_concat _); [|discriminate]|]; inversion E; subst; cbn;
     constructor; assumption.
 Qed.
@@ -779,7 +787,13 @@ Definition plain (s : spelling) : bool := forallb (fun c => negb ((c =? dq) || (
 (* identifiers, numbers and punctuators contain neither a double quote nor a backslash; literals may contain anything *)
 Definition strfy_ok (t : tok) : bool :=
   match t with TTok KStr _ | TTok KChr _ => true | _ => plain (spell t) end.
-Definition plain_piece (t : tok) : spelling := if is_ws t then [32] else spell t.
+(* the spelling of a token list: the tokens, each run of white space as one space ([old]: one per token) *)
+Fixpoint str_plain (old prev_ws : bool) (ts : list tok) : spelling :=
+  match ts with
+  | [] => []
+  | t :: r => if is_ws t then (if negb old && prev_ws then [] else [32]) ++ str_plain old true r
+              else spell t ++ str_plain old false r
+  end.
 
 Lemma unesc_cons_plain : forall c r, (c =? bs) = false -> unesc (c :: r) = c :: unesc r.
 Proof. intros c r H; cbn [unesc]. destruct r as [|c' r']; [reflexivity|]. rewrite H; reflexivity. Qed.
@@ -818,18 +832,18 @@ Qed.
    string literal or character constant of the argument is escaped, each run of white space between the
    argument's tokens is one space -- and it spells the argument: destringizing gives back the spelling of
    the argument's tokens. *)
-Lemma stringify_spec : forall ts, forallb strfy_ok ts = true ->
-  exists body, stringify_toks ts = TTok KStr (dq :: body ++ [dq]) /\
-               str_closed body = true /\ unesc body = flat_map plain_piece ts.
+Lemma stringify_spec : forall old ts, forallb strfy_ok ts = true ->
+  exists body, stringify_toks old ts = TTok KStr (dq :: body ++ [dq]) /\
+               str_closed body = true /\ unesc body = str_plain old false ts.
 Proof.
-  intros ts H. exists (flat_map str_piece ts). split; [reflexivity|].
-  induction ts as [|t ts IH]; [split; reflexivity|].
-  cbn in H. apply andb_true_iff in H as [Ht Hts]. destruct (IH Hts) as [I1 I2]. cbn [flat_map].
-  unfold str_piece at 1, plain_piece at 1. unfold str_piece at 2.
+  intros old ts H. exists (str_body old false ts). split; [reflexivity|].
+  generalize false. induction ts as [|t ts IH]; intros pw; [split; reflexivity|].
+  cbn in H. apply andb_true_iff in H as [Ht Hts]. cbn [str_body str_plain].
   destruct (is_ws t) eqn:Ew.
-  - split; [cbn; exact I1|]. change ([32] ++ flat_map str_piece ts) with (32 :: flat_map str_piece ts).
-    rewrite unesc_cons_plain by reflexivity. rewrite I2. reflexivity.
-  - destruct t as [p s|k s| | | | | | |]; cbn in Ew; try discriminate;
+  - destruct (IH Hts true) as [I1 I2]. destruct (negb old && pw); cbn [app]; [split; assumption|].
+    split; [cbn; exact I1|]. rewrite unesc_cons_plain by reflexivity. rewrite I2. reflexivity.
+  - destruct (IH Hts false) as [I1 I2].
+    destruct t as [p s|k s| | | | | | |]; cbn in Ew; try discriminate; unfold str_piece;
       try (cbn [spell]; split; [exact I1|rewrite I2; reflexivity]);
       try (cbn [strfy_ok spell] in Ht; split; [rewrite str_closed_plain_app by exact Ht; exact I1
                                               |rewrite unesc_plain_app by exact Ht; rewrite I2; reflexivity]).
@@ -853,13 +867,13 @@ Lemma token_concat_spell : forall a b t, token_concat a b = Some t -> spell t = 
 Proof. intros a b t H; unfold token_concat in H. apply classify_spell in H; tauto. Qed.
 
 (* a property of tokens that placemarkers and pasted tokens have is kept by do_concat's loop *)
-Lemma dc_pres : forall (P : tok -> bool), P TPlm = true ->
+Lemma dc_pres : forall (old : bool) (P : tok -> bool), P TPlm = true ->
   (forall a b t, token_concat a b = Some t -> P t = true) ->
   forall n todo done l, length todo <= n ->
     forallb (fun t => P t || is_rdblno t) todo = true -> forallb P done = true ->
-    dc todo done = Some l -> forallb P l = true.
+    dc old todo done = Some l -> forallb P l = true.
 Proof.
-  intros P Hplm Hcat. induction n as [|n IH]; intros todo done l Hn Ht Hd H.
+  intros old P Hplm Hcat. induction n as [|n IH]; intros todo done l Hn Ht Hd H.
   - destruct todo; [|cbn in Hn; lia]. cbn in H; inversion H; subst; assumption.
   - destruct todo as [|t todo]; [cbn in H; inversion H; subst; assumption|].
     cbn in Hn. cbn [forallb] in Ht. apply andb_true_iff in Ht as [Ht1 Ht2].
@@ -867,7 +881,7 @@ Proof.
     { intros [|w x] Hx; cbn; [reflexivity|]. destruct (is_ws w); [cbn in Hx; apply andb_true_iff in Hx; tauto|exact Hx]. }
     assert (Hsk' : forall x, forallb P x = true -> forallb P (skip1 x) = true).
     { intros [|w x] Hx; cbn; [reflexivity|]. destruct (is_ws w); [cbn in Hx; apply andb_true_iff in Hx; tauto|exact Hx]. }
-    assert (Hother : is_rdblno t = false -> dc todo (t :: done) = Some l -> forallb P l = true).
+    assert (Hother : is_rdblno t = false -> dc old todo (t :: done) = Some l -> forallb P l = true).
     { intros Hr H'. eapply IH; [| | |exact H']; [lia|exact Ht2|]. cbn. rewrite Hr, orb_false_r in Ht1. rewrite Ht1; exact Hd. }
     destruct t; cbn [dc] in H; try (apply Hother; [reflexivity|exact H]). clear Hother.
     pose proof (Hsk' _ Hd) as Hd1.
@@ -879,21 +893,21 @@ Proof.
     pose proof (skip1_length l2). pose proof (Hsk _ Hl2). pose proof (Hsk' _ Hr).
     destruct (is_plm tk).
     + destruct (is_plm tj).
-      * eapply IH; [| | |exact H]; [lia|assumption|cbn; rewrite Hplm; assumption].
-      * eapply IH; [| | |exact H]; [lia|assumption|cbn; rewrite Hj; assumption].
+      * destruct old; (eapply IH; [| | |exact H]; [lia|assumption|cbn; rewrite Hplm; assumption]).
+      * destruct old; (eapply IH; [| | |exact H]; [lia|assumption|cbn; rewrite Hj; assumption]).
     + destruct (is_plm tj).
-      * eapply IH; [| | |exact H]; [cbn; lia|cbn; rewrite Hk; assumption|assumption].
+      * destruct old; (eapply IH; [| | |exact H]; [cbn; lia|cbn; rewrite Hk; assumption|assumption]).
       * destruct (token_concat tk tj) as [t'|] eqn:Ec; [|discriminate].
         eapply IH; [| | |exact H]; [lia|assumption|]. cbn. rewrite (Hcat _ _ _ Ec). assumption.
 Qed.
 
 (* whatever the buffer: the result of do_concat contains no ## and no placemarker any more *)
-Lemma do_concat_no_paste_left : forall l l', do_concat l = Some l' ->
+Lemma do_concat_no_paste_left : forall old l l', do_concat old l = Some l' ->
   forallb (fun t => negb (is_rdblno t) && negb (is_plm t)) l' = true.
 Proof.
-  intros l l' E; unfold do_concat in E. destruct (dc (rev l) []) as [x|] eqn:D; [|discriminate]. inversion E; subst.
+  intros old l l' E; unfold do_concat in E. destruct (dc old (rev l) []) as [x|] eqn:D; [|discriminate]. inversion E; subst.
   assert (Hx : forallb (fun t => negb (is_rdblno t)) x = true).
-  { apply (dc_pres (fun t => negb (is_rdblno t)) eq_refl) with (n := length (rev l)) (todo := rev l) (done := []);
+  { apply (dc_pres old (fun t => negb (is_rdblno t)) eq_refl) with (n := length (rev l)) (todo := rev l) (done := []);
       [|apply le_n| |reflexivity|exact D].
     - intros a b t H. unfold token_concat in H. apply classify_spell in H. destruct H as [_ [H _]]. rewrite H; reflexivity.
     - clear. induction (rev l) as [|t r IH]; [reflexivity|]. cbn. rewrite IH. destruct t; reflexivity. }
@@ -902,15 +916,15 @@ Proof.
 Qed.
 
 (* a buffer without ## is only copied (placemarkers cannot be there: they are made for ## operands only) *)
-Lemma dc_no_paste : forall todo done, forallb (fun t => negb (is_rdblno t)) todo = true -> dc todo done = Some (rev todo ++ done).
+Lemma dc_no_paste : forall old todo done, forallb (fun t => negb (is_rdblno t)) todo = true -> dc old todo done = Some (rev todo ++ done).
 Proof.
-  induction todo as [|t todo IH]; intros done H; [reflexivity|].
+  intros old. induction todo as [|t todo IH]; intros done H; [reflexivity|].
   cbn in H. apply andb_true_iff in H as [H1 H2].
   destruct t; cbn [dc]; try discriminate; rewrite IH by exact H2; cbn; rewrite <- app_assoc; reflexivity.
 Qed.
-Lemma do_concat_no_paste : forall l, forallb (fun t => negb (is_rdblno t) && negb (is_plm t)) l = true -> do_concat l = Some l.
+Lemma do_concat_no_paste : forall old l, forallb (fun t => negb (is_rdblno t) && negb (is_plm t)) l = true -> do_concat old l = Some l.
 Proof.
-  intros l H. unfold do_concat. rewrite dc_no_paste.
+  intros old l H. unfold do_concat. rewrite dc_no_paste.
   - rewrite rev_involutive, app_nil_r. f_equal. induction l as [|t l IH]; [reflexivity|].
     cbn in H. apply andb_true_iff in H as [H1 H2]. cbn. rewrite (IH H2). destruct t; cbn in *; try discriminate; reflexivity.
   - rewrite forallb_forall in *. intros x Hx. apply in_rev in Hx. specialize (H x Hx). apply andb_true_iff in H; tauto.
@@ -920,7 +934,7 @@ Qed.
    (which ends as nothing), two tokens are put together *)
 Definition ord (t : tok) : bool := negb (is_rdblno t) && negb (is_plm t) && negb (is_ws t).
 Lemma paste_two : forall a b, ord a = true -> ord b = true ->
-  do_concat [a; TRDblNo; b] = match token_concat a b with Some t => Some [t] | None => None end.
+  do_concat false [a; TRDblNo; b] = match token_concat a b with Some t => Some [t] | None => None end.
 Proof.
   intros a b Ha Hb. unfold do_concat. cbn [rev app].
   destruct b; cbn in Hb; try discriminate; cbn [dc skip1 is_ws];
@@ -928,9 +942,9 @@ Proof.
     destruct (token_concat _ _) as [t|] eqn:E; try reflexivity;
     cbn; apply classify_spell in E; destruct E as [_ [_ [E _]]]; destruct t; cbn in *; try discriminate; reflexivity.
 Qed.
-Lemma paste_right_empty : forall a, ord a = true -> do_concat [a; TRDblNo; TPlm] = Some [a].
+Lemma paste_right_empty : forall a, ord a = true -> do_concat false [a; TRDblNo; TPlm] = Some [a].
 Proof. intros a Ha. unfold do_concat. destruct a; cbn in Ha; try discriminate; reflexivity. Qed.
-Lemma paste_left_empty : forall b, ord b = true -> do_concat [TPlm; TRDblNo; b] = Some [b].
+Lemma paste_left_empty : forall b, ord b = true -> do_concat false [TPlm; TRDblNo; b] = Some [b].
 Proof. intros b Hb. unfold do_concat. destruct b; cbn in Hb; try discriminate; reflexivity. Qed.
-Lemma paste_both_empty : do_concat [TPlm; TRDblNo; TPlm] = Some [TSp].
+Lemma paste_both_empty : do_concat false [TPlm; TRDblNo; TPlm] = Some [TSp].
 Proof. reflexivity. Qed.
